@@ -523,6 +523,17 @@ def run(ctx):
                     check_create_update(ctx, mk_case("create_update", lines, onodes, parallel=["records", "phase"],
                                                      phase=[0] * cut + [1] * (len(lines) - cut)),
                                         onodes, res, draw_extra=lambda: r.random() < 0.5)
+                # ... and split by role: first every feature that NAMES a parent (all their top-level parents are dangling
+                # then), afterwards one update() whose batch holds only the Parent-less features (the missing genes)
+                withp = [k for k, x in enumerate(onodes) if x["parents"]]
+                nop = [k for k, x in enumerate(onodes) if not x["parents"]]
+                if withp and nop:
+                    idx = withp + nop
+                    check_create_update(ctx, mk_case("create_update", [lines[k] for k in idx], [onodes[k] for k in idx],
+                                                     parallel=["records", "phase"], phase=[0] * len(withp) + [1] * len(nop),
+                                                     extra=False),
+                                        [onodes[k] for k in idx], res)
+                    res.count("create_then_update_with_parentless_batch")
                 # iter_by_parent_childs
                 check_iter(mk_case("iter_by_parent_childs", lines, onodes), db, onodes, res)
                 if db.dialect["repeated keys"] and any(len(set(x["parents"])) > 1 and x.get("pform") != "repeated"
